@@ -110,6 +110,33 @@ func NewSpreadUniverse(n, min, max int, dups ...int) *Universe {
 	return u
 }
 
+// NewScaledUniverse is the compact alphabet with every coordinate multiplied by
+// 0.1, so that all distances are below 1 (where a squared distance is smaller
+// than the distance itself).
+func NewScaledUniverse(n, min, max int, dups ...int) *Universe {
+	base := NewUniverse(n, min, max, dups...)
+	u := &Universe{Dup: base.Dup, Min: min, Max: max, idx: map[geom.Geom]int{}}
+	sc := func(p geom.Point) geom.Point { return geom.Point{X: p.X / 10, Y: p.Y / 10} }
+	for i, o := range base.Objs {
+		var g geom.Geom
+		switch t := o.(type) {
+		case geom.Point:
+			g = sc(t)
+		case *geom.Bounds:
+			g = &geom.Bounds{Min: sc(t.Min), Max: sc(t.Max)}
+		}
+		u.Objs = append(u.Objs, g)
+		u.idx[g] = i
+	}
+	for _, q := range base.Queries {
+		u.Queries = append(u.Queries, &geom.Bounds{Min: sc(q.Min), Max: sc(q.Max)})
+	}
+	for _, p := range QueryPoints() {
+		u.QPoints = append(u.QPoints, sc(p))
+	}
+	return u
+}
+
 // OpName renders an operation index.
 func (u *Universe) OpName(op int) string {
 	n := len(u.Objs)
